@@ -72,9 +72,22 @@ def _req(kind: str, case: dict, **extra) -> dict:
     return r
 
 
+def compress_variant() -> bool:
+    """Which Compress routine does the source implement? True = the repaired one (an input of unknown
+    rank without an axis gives a vector, `inferCompressFixed`), False = the pinned one (`inferCompress`).
+    Probed on the one distinguishing input; both variants are proved sound."""
+    try:
+        r = L.real_infer(L.OPS["Compress"], {"a": None}, [{"e": "f32", "s": None}, {"e": "bool", "s": [2]}])
+        return r.get("ok") == [{"e": "f32", "s": [None]}]
+    except Exception:  # noqa: BLE001
+        return False
+
+
 def corr_infer(ck: core.Check, drv) -> None:
     cases = infer_cases(ck.rng, ck.thorough)
-    model = drv.ask_many("C06", [_req("infer", c, **{"in": c["in"]}) for c in cases])
+    vec = compress_variant()
+    ck.cov["compress_variant"] = "inferCompressFixed" if vec else "inferCompress"
+    model = drv.ask_many("C06", [_req("infer", c, **({"in": c["in"], "vec": vec} if c["op"] == "Compress" else {"in": c["in"]})) for c in cases])
     mism = 0
     per_op: dict[str, int] = {}
     errs = 0
